@@ -11,7 +11,7 @@ from common import Driver, DriverFailure, hx
 LEVEL = "proof"
 MANIFEST = dict(
     text="Lean 4 theorems for every item satisfying the decidable Item.WF (all shipped items except the 3 of finding D9, by C18's whole-table evaluation), every 1024-byte block and every domain value: write-then-read returns the value (read_after_write + per-kind corollaries), only bits of the item's own field change (write_touches_only_own_field), items with a disjoint field keep their value (other_items_unchanged), read-only items refuse, string forms, and the blocking/awaitable paths emit identical writes. The shift/mask/merge arithmetic is translated from accessor.py on every run; type dispatch / labels / time format are a hand model tied by a differential correspondence on the real accessors (thorough: all 20 505 items)."
-         ' Since session 3: adversarial prior contents for bit fields (the whole field equals the integer about to be merged in, and its complement) and a no-write oracle. Session 4: every stored word of a window (0..1099 plus a seeded sample of the rest) of the writable temperature items of two shipped pairs is presented in both units and written back through the blocking and the awaitable path: the device write must carry that word. Items whose labels are unusual as text (blank, padded, case twins, numeric-looking) are always chosen; an error on an in-domain write to a writable item is a violation. Session 5: write_paths_are_the_same_code (the awaitable write methods of an item and of the structure, with their one await turned into a call, ARE the blocking ones, as skeletons regenerated from the source), write_paths_keep_no_state, every_write_is_handed_over; histories of writes on one long-lived structure whose hand-off fails or is cancelled, then the same write again (twice), two under way together: every call emits the blocking path\'s write. blocking_write_refines_awaitable / blocking_temperature_write_refines_awaitable: every trace of the blocking write is the image of a trace of the awaitable one (twin_refines, rassoc_equiv in Proofs/CoopEquiv.lean). Round 14: the same writes through the real client path (c13.pending_report_scenarios: two writes behind a slow exchange, a change of mind before the spa\'s report). Round 15: two BLOCKING clients per process (real start_connect hand-shakes stepped without threads, harness/bsessions.py), sequential and with overlapping start-up; a write through one client\'s item reaches its own spa only. Round 16: Session.blocking_declarations_are_made_for_each_connection and Session.every_blocking_set_value_is_sent over the regenerated skeletons of GeckoSpa._on_config_received / _on_set_value (the check now regenerates Skeletons itself).',
+         ' Since session 3: adversarial prior contents for bit fields (the whole field equals the integer about to be merged in, and its complement) and a no-write oracle. Session 4: every stored word of a window (0..1099 plus a seeded sample of the rest) of the writable temperature items of two shipped pairs is presented in both units and written back through the blocking and the awaitable path: the device write must carry that word. Items whose labels are unusual as text (blank, padded, case twins, numeric-looking) are always chosen; an error on an in-domain write to a writable item is a violation. Session 5: write_paths_are_the_same_code (the awaitable write methods of an item and of the structure, with their one await turned into a call, ARE the blocking ones, as skeletons regenerated from the source), write_paths_keep_no_state, every_write_is_handed_over; histories of writes on one long-lived structure whose hand-off fails or is cancelled, then the same write again (twice), two under way together: every call emits the blocking path\'s write. blocking_write_refines_awaitable / blocking_temperature_write_refines_awaitable: every trace of the blocking write is the image of a trace of the awaitable one (twin_refines, rassoc_equiv in Proofs/CoopEquiv.lean). Round 14: the same writes through the real client path (c13.pending_report_scenarios: two writes behind a slow exchange, a change of mind before the spa\'s report). Round 15: two BLOCKING clients per process (real start_connect hand-shakes stepped without threads, harness/bsessions.py), sequential and with overlapping start-up; a write through one client\'s item reaches its own spa only. Round 16: Session.blocking_declarations_are_made_for_each_connection and Session.every_blocking_set_value_is_sent over the regenerated skeletons of GeckoSpa._on_config_received / _on_set_value (the check now regenerates Skeletons itself). Round 17: re-entrancy - the observer of one item writes two bit-field items sharing a byte on a structure whose writes take effect at once; both hold.',
     note="Trusted: Lean kernel; translator for the three arithmetic expressions; the correspondence harness; 'applied to the block' = the spa stores struct.pack of the value at pos (as the bundled simulator does). Temperature items' unit conversion is C14.",
     technique='Lean 4 bit-level proofs (Nat.testBit) over source-translated merge arithmetic + differential correspondence of the hand model on all shipped items',
     design='5/C02',
@@ -220,6 +220,58 @@ def replay_write_history(inp):
             want = ref + ref
         got = list(h.acaptured)
     return got != want, {"emitted": got, "blocking path": want}
+
+
+def writes_from_a_change_handler(ctx, only=None):
+    """re-entrancy: a structure whose writes take effect at once (the simulator's, a client that mirrors optimistically); the observer of
+    one item reacts to its change by WRITING two bit-field items that share a byte. Both writes must hold afterwards and no other bit move."""
+    import importlib
+    from geckolib.driver.spastruct import GeckoStructure
+    for cfg, log in (("inyt-cfg-61", "inyt-log-61"), ("inyt-cfg-50", "inyt-log-50"), ("inxm-cfg-9", "inxm-log-9")):
+        if only is not None and only != [cfg, log]:
+            continue
+        try:
+            cm = importlib.import_module("geckolib.driver.packs." + cfg)
+            lm = importlib.import_module("geckolib.driver.packs." + log)
+        except Exception:  # noqa
+            continue
+        holder = {}
+
+        def on_set_value(pos, length, newvalue):
+            holder["st"].replace_status_block_segment(pos, int(newvalue).to_bytes(length, "big"))
+        st = GeckoStructure(on_set_value)
+        holder["st"] = st
+        st.set_status_block(bytes(1024))
+        st.build_accessors(cm.GeckoConfigStruct(st), lm.GeckoLogStruct(st))
+        enums = [a for a in st.accessors.values() if a.read_write is not None and a.type == "Enum" and a.bitpos is not None and a.items and len([x for x in a.items if x]) >= 2 and a.pos + a.length <= 1024]
+        pair = next(((y, z) for y in enums for z in enums if y is not z and y.pos == z.pos and y.length == z.length and y.bitpos != z.bitpos), None)
+        trig = next((a for a in st.accessors.values() if a.type == "Byte" and a.bitpos is None and a.pos + 1 <= 1024 and (pair is None or a.pos not in range(pair[0].pos, pair[0].pos + pair[0].length))), None)
+        if pair is None or trig is None:
+            continue
+        y, z = pair
+        laby, labz = [x for x in y.items if x][-1], [x for x in z.items if x][-1]
+        errs = []
+
+        def handler(sender, old, new):
+            try:
+                y.value = laby
+                z.value = labz
+            except Exception as e:  # noqa
+                errs.append(f"{type(e).__name__}: {e}")
+        trig.watch(handler)
+        before = bytes(st.status_block)
+        st.replace_status_block_segment(trig.pos, bytes([5]))
+        after = bytes(st.status_block)
+        ctx.count("evaluations")
+        ctx.hist("writes_from_a_change_handler", cfg)
+        allowed = set(range(y.pos, y.pos + y.length)) | {trig.pos}
+        foreign = [i for i in range(1024) if before[i] != after[i] and i not in allowed]
+        got = [str(y.value), str(z.value)]
+        if errs or got != [laby, labz] or foreign:
+            ctx.violation("write-from-a-change-handler:lost", {"kind": "writes-from-a-change-handler", "case": [cfg, log]},
+                          {f"{y.tag}, {z.tag} (byte {y.pos}) read": [laby, labz], "other bytes": "unchanged"},
+                          {"read": got, "raised": errs, "other bytes changed": foreign[:4]})
+            return
 
 
 def blocking_clients(ctx, only=None):
@@ -600,6 +652,7 @@ def run(ctx):
     #            start-up - every item reads its own client's block and a write reaches its own client's spa
     try:
         blocking_clients(ctx)
+        writes_from_a_change_handler(ctx)
     except Exception as e:  # noqa
         ctx.obligation_broken("harness:blocking-clients", f"{type(e).__name__}: {e}")
     # ---------- correspondence: the Lean model must predict every answer ----------
@@ -635,6 +688,11 @@ def run(ctx):
 
 
 def replay(inp):
+    if inp.get("kind") == "writes-from-a-change-handler":
+        from common import Ctx
+        c = Ctx("C02", "quick", 0)
+        writes_from_a_change_handler(c, only=inp["case"])
+        return bool(c.violations), c.violations[0]["observed"] if c.violations else "both writes hold"
     if inp.get("kind") == "blocking-clients":
         from common import Ctx
         c = Ctx("C02", "quick", 0)
